@@ -23,6 +23,7 @@ DesignAbs == {
   J(<<F(<<<<Ka, <<98>>>>>>, <<>>)>>, E2, TRUE, <<<<KB, <<79,75>>>>>>),
   L(<<F(<<<<Ka, <<98>>>>>>, <<>>), F(<<>>, <<>>)>>, <<>>),
   L(<<F(<<>>, <<<<0,255>>>>)>>, <<>>),
+  L(<<F(<<<<Ka, <<98>>>>>>, <<>>), F(<<>>, <<<<79,75,10>>>>), F(<<>>, <<>>)>>, <<>>),      \* a payload in the middle frame, none in the last
   L(<<F(<<<<Ka, <<98>>>>>>, <<>>)>>, E2),
   L(<<>>, E2) }
 Base == {Enc(a) : a \in DesignAbs}
